@@ -41,10 +41,14 @@ def _build(kind, g, sol, dtype="int64", meta=None, form="array"):
             return [int(v) for v in x]
         return np.array(x, dtype=dtype)
 
+    if form == "fortran" and kind != "solved":
+        cl = np.asfortranarray(cl)
     if kind == "lattice":
         return LatticeMaze(connection_list=cl, generation_meta=meta)
     if kind == "targeted":
         return TargetedLatticeMaze(connection_list=cl, start_pos=co(sol[0]), end_pos=co(sol[-1]), generation_meta=meta)
+    if form == "fortran":
+        return SolvedMaze(connection_list=np.asfortranarray(cl), solution=np.array([[q[0] for q in sol], [q[1] for q in sol]], dtype=dtype).T, generation_meta=meta)
     solution = np.array(sol, dtype=dtype) if form == "array" else ([co(q) for q in sol] if form == "list" else tuple(co(q) for q in sol))
     return SolvedMaze(connection_list=cl, solution=solution, generation_meta=meta)
 
@@ -87,7 +91,7 @@ def check_pair(case: dict):
     else:
         raise ValueError(op)
     a = call(f"C09:{ka}:construct-valid", _build, ka, g, sol)
-    form_b = ("array", "array", "tuple", "list")[core.digest(case) % 4]
+    form_b = ("array", "array", "tuple", "list", "fortran")[core.digest(case) % 5]
     b = a if same_obj else call(f"C09:{kb}:construct-valid", _build, kb, gb, solb, dtype=dtype_b, meta=meta_b, form=form_b)
     want = _struct(ka, g, sol) == _struct(kb, gb, solb)
     sig = f"C09:{ka}" if ka == kb else f"C09:{ka}-vs-{kb}"
@@ -249,7 +253,7 @@ def _dataset_pair(draw):
     n = draw(st.integers(2, 4))
     items = draw(st.lists(G.solved_case(lo=n, hi=n, square=True), min_size=0, max_size=5))
     items = [{"g": it["g"], "sol": it["sol"]} for it in items]
-    mode = draw(st.sampled_from(["same", "copy", "one-maze", "length", "name", "seed", "order"]))
+    mode = draw(st.sampled_from(["same", "copy", "one-maze", "length", "name", "seed", "order", "resplit", "resplit"]))
     case = {"n": n, "a": items, "b": [dict(it) for it in items]}
     if mode == "same":
         case["same"] = True
@@ -266,6 +270,15 @@ def _dataset_pair(draw):
         case["seed_b"] = 43
     elif mode == "order" and len(items) >= 2:
         case["b"] = list(reversed(case["b"]))
+    elif mode == "resplit":
+        # two mazes on one graph whose solutions, laid end to end, read the same in both datasets but are cut at different places
+        base = draw(G.solved_case(lo=n, hi=n, square=True, connected=True, min_len=4))
+        p = base["sol"]
+        if len(p) >= 4:
+            i = draw(st.integers(1, len(p) - 2))
+            j = draw(st.integers(1, len(p) - 2).filter(lambda x: x != i))
+            case["a"] = items + [{"g": base["g"], "sol": p[:i]}, {"g": base["g"], "sol": p[i:]}]
+            case["b"] = [dict(it) for it in items] + [{"g": base["g"], "sol": p[:j]}, {"g": base["g"], "sol": p[j:]}]
     return case
 
 
